@@ -12,6 +12,9 @@ plugin/mem/mem.go `genFunc` emits one of four shapes, chosen from the parameter 
                                  if ok { for _, v := range vs { if deriveEqual(v.in, in) { return v.out } } };
                                  res… := f(param…); m[h] = append(m[h], mem{in, out}); return res…`
 
+(the bucket shape for a function without results is emitted in compilable form since the repair of
+finding F18: `f(param…); m[h] = append(m[h], mem{in})`)
+
 times how the results are stored (`pack`): nothing (`struct{}` / no `out` field) for no result, the
 value itself for one result, an `output{Res0, Res1, …}` struct for two or more.
 
